@@ -220,6 +220,8 @@ def coarse_desc(cls, desc):
     def sub(m):
         w = m.group(0)
         i, j = m.start(), m.end()
+        if i > 0 and desc[i - 1].isdigit():
+            return w            # the tail of a number literal (0x100)
         if w == "self" or w[0].isupper() or (i > 0 and desc[i - 1] == ".") or desc[j:j + 1] == "(" or desc[max(0, i - 3):i] == "as " \
                 or desc[j:j + 1] == ":" or desc[max(0, i - 1):i] == ":":
             return w
